@@ -40,6 +40,21 @@ fn special_value(rng: &mut Prng) -> (Vec<u32>, bool) {
 
 pub fn gen(rng: &mut Prng, plan: &mut Plan) {
     plan.cfg = Step::new("cfg");
+    if rng.chance(1, 40) {
+        // padding sweep: one value, one import form, every padding length up to beyond two cache lines (a transport
+        // that delivers a value in a fixed-width field); values -256^j and +-2^(8k-1) are where sign extension matters
+        let (v, neg) = match rng.below(3) {
+            0 => (RefNat::one().shl(8 * rng.range(1, 40)).0, true),
+            1 => (RefNat::one().shl(8 * rng.range(1, 40)).sub(&RefNat::one()).unwrap().0, rng.chance(1, 2)),
+            _ => special_value(rng),
+        };
+        let route = rng.below(8) as i128;
+        let kind = rng.below(10) as i128;
+        for pad in 0..=136 {
+            plan.steps.push(Step::new("rt").l32("v", &v).i("neg", neg as i128).i("route", route).i("kind", kind).i("pad", pad));
+        }
+        return;
+    }
     let n = rng.range(1, 6);
     for _ in 0..n {
         let (v, neg) = special_value(rng);
@@ -277,6 +292,11 @@ pub fn exec(plan: &Plan) -> RunResult {
                                 let back = <BigInt as num_traits::FromBytes>::from_le_bytes(&b);
                                 if denote_i(&back) != mi || noncanonical_i(&back).is_some() {
                                     return Err(format!("FromBytes(ToBytes(x) + padding) = {} for x = {}", denote_i(&back).to_dec(), mi.to_dec()));
+                                }
+                                b.reverse();
+                                let back = <BigInt as num_traits::FromBytes>::from_be_bytes(&b);
+                                if denote_i(&back) != mi || noncanonical_i(&back).is_some() {
+                                    return Err(format!("FromBytes::from_be_bytes(padding + ToBytes(x)) = {} for x = {}", denote_i(&back).to_dec(), mi.to_dec()));
                                 }
                             }
                             _ => {
